@@ -93,6 +93,7 @@ func main() {
 		}
 		// ---- history ----
 		var script strings.Builder
+		var srcPairs [][2]string
 		script.WriteString("var obs=[], its=[], kinds=[];\n")
 		var initCoq, initDesc string
 		switch form := r.Intn(6); form {
@@ -134,6 +135,10 @@ func main() {
 			}
 			arr := "[" + strings.Join(items, ",") + "]"
 			var ctor string
+			srcPairs = nil
+			if form == 4 {
+				srcPairs = ps
+			}
 			switch form {
 			case 2:
 				var fields []string
@@ -144,7 +149,9 @@ func main() {
 			case 3:
 				ctor = "new URLSearchParams(" + arr + ")"
 			case 4:
-				ctor = "new URLSearchParams(new URLSearchParams(" + arr + "))"
+				// the source object stays alive: what is done to the copy must not show in it
+				script.WriteString("var __src = new URLSearchParams(" + arr + ");\n")
+				ctor = "new URLSearchParams(__src)"
 			default:
 				ctor = "new URLSearchParams(new Map(" + arr + ".map(function(e,i){return [e[0]+'#'+i,e]})).values())"
 			}
@@ -251,6 +258,7 @@ func main() {
 			opsCoq = append(opsCoq, coq)
 			opsDesc = append(opsDesc, stmt)
 		}
+		script.WriteString("obs.push(['src', (typeof __src === 'undefined' || __src === null) ? null : Array.from(__src)]); __src = null;\n")
 		script.WriteString("JSON.stringify(obs)")
 		v, err := vm.RunString(script.String())
 		if err != nil {
@@ -275,6 +283,23 @@ func main() {
 		for _, o := range raw {
 			tag := toStr(o[0])
 			switch tag {
+			case "src":
+				if o[1] != nil {
+					var got [][2]string
+					for _, e := range o[1].([]interface{}) {
+						pr := e.([]interface{})
+						got = append(got, [2]string{toStr(pr[0]), toStr(pr[1])})
+					}
+					same := len(got) == len(srcPairs)
+					for i := range got {
+						if same && got[i] != srcPairs[i] {
+							same = false
+						}
+					}
+					if !same {
+						out.Fail(len(out.Cases), "copy-shares-state-with-its-source", map[string]interface{}{"script": script.String(), "source_now": got, "source_was": srcPairs})
+					}
+				}
 			case "none":
 				obsCoq = append(obsCoq, "BNone")
 			case "opt":
